@@ -302,6 +302,11 @@ func genPointerDump(t *rapid.T) DumpM {
 		}
 		d.Gs = append(d.Gs, g)
 	}
+	if ng >= 2 && oneIn(t, 6, "repeatFirstID") {
+		// two dumps logged back to back (or one pasted twice): a later goroutine carries the
+		// id of the first one; "the first goroutine" is a position, not an id
+		d.Gs[rapid.IntRange(1, ng-1).Draw(t, "repeatAt")].ID = d.Gs[0].ID
+	}
 	return d
 }
 
